@@ -194,8 +194,12 @@ namespace sim
         return off;
     }
 
+    void (*g_upstream_hook)(const char*) = nullptr;
+
     void* SimHeap::request(int owner, std::size_t size, std::size_t align)
     {
+        if (g_upstream_hook)
+            g_upstream_hook("upstream.request");
         if (armed_ && !suspended_)
         {
             ++op_calls_;
@@ -237,6 +241,8 @@ namespace sim
 
     void SimHeap::release(int owner, void* p, std::size_t size, std::size_t align, bool check_lifo)
     {
+        if (g_upstream_hook)
+            g_upstream_hook("upstream.release");
         if (armed_ && !suspended_)
             ++op_releases_;
         char buf[256];
